@@ -130,8 +130,10 @@ func (qr *queryRequest) Timeout(d time.Duration) {
 
 // startQueryListener listens for query requests and passes them on to a worker.
 func (qe *queryEvent) startQueryListener() {
+	defer verifPoint("qlistener.exit", qe.r.rname)
 	for m := range qe.ch {
 		m := m
+		verifPoint("qlistener.msg", m)
 		qe.r.s.runWith(qe.r.Group(), func() {
 			qe.handleQueryRequest(m)
 		})
@@ -256,6 +258,7 @@ func (qr *queryRequest) reply(payload []byte) {
 	qr.replied = true
 
 	qr.s.tracef("<=Q %s: %s", qr.rname, payload)
+	verifPoint("publish.before", qr.msg.Reply)
 	err := qr.s.nc.Publish(qr.msg.Reply, payload)
 	if err != nil {
 		qr.s.errorf("Error sending query reply %s: %s", qr.rname, err)
